@@ -29,7 +29,10 @@ theorem mkTy_tupleFixed (ts) :
     mkTy env mkCls H (.tupleFixed ts) =
       match H.answer "tuple" ts.length with
       | some id => .ok (.custom id)
-      | none => (exAll (mkTys env mkCls H ts)).map .tuple := rfl
+      | none =>
+        match (env.registered.findSome? fun h => h.answer "tuple" ts.length) with
+        | some id => .ok (.custom id)
+        | none => (exAll (mkTys env mkCls H ts)).map .tuple := rfl
 
 theorem mkTy_scalar (name) :
     mkTy env mkCls H (.scalar name) =
@@ -52,6 +55,9 @@ theorem mkTy_seq (origin arg) :
       match H.answer origin (if arg.isSome then 1 else 0) with
       | some id => .ok (.custom id)
       | none =>
+        match (env.registered.findSome? fun h => h.answer origin (if arg.isSome then 1 else 0)) with
+        | some id => .ok (.custom id)
+        | none =>
         match seqKind origin with
         | none => .error (.typeError ("No converter for abstract type '" ++ origin ++ "'"))
         | some kind =>
@@ -60,11 +66,24 @@ theorem mkTy_seq (origin arg) :
           | none => .ok (.seq kind .any) := by
   cases arg <;> rfl
 
+theorem mkTy_valueOrList (arg) :
+    mkTy env mkCls H (.valueOrList arg) =
+      match H.answer "ValueOrList" (if arg.isSome then 1 else 0) with
+      | some id => .ok (.custom id)
+      | none =>
+        match arg with
+        | some a => (mkTy env mkCls H a).map .vol
+        | none => .ok (.vol .any) := by
+  cases arg <;> rfl
+
 theorem mkTy_mapping (origin args) :
     mkTy env mkCls H (.mapping origin args) =
       match H.answer origin args.length with
       | some id => .ok (.custom id)
       | none =>
+        match (env.registered.findSome? fun h => h.answer origin args.length) with
+        | some id => .ok (.custom id)
+        | none =>
         match seqKind origin with
         | none => .error (.typeError ("No converter for abstract type '" ++ origin ++ "'"))
         | some kind =>
@@ -100,19 +119,85 @@ theorem mkInner_scalar (name) :
 
 end Unfold
 
+/-! ### the three container clauses when the registered handlers are silent / when one answers
+(rule 5 of `make_converter`: the registered handlers are asked before every structural built-in) -/
+
+theorem mkTy_tupleFixed_silent (ts : List Ty) (h : H.answer "tuple" ts.length = none)
+    (r : env.registered.findSome? (·.answer "tuple" ts.length) = none) :
+    mkTy env mkCls H (.tupleFixed ts) = (exAll (mkTys env mkCls H ts)).map .tuple := by
+  rw [mkTy_tupleFixed, h, r]
+
+theorem mkTy_seq_silent (origin : String) (arg : Option Ty)
+    (h : H.answer origin (if arg.isSome then 1 else 0) = none)
+    (r : env.registered.findSome? (·.answer origin (if arg.isSome then 1 else 0)) = none) :
+    mkTy env mkCls H (.seq origin arg) =
+      match seqKind origin with
+      | none => .error (.typeError ("No converter for abstract type '" ++ origin ++ "'"))
+      | some kind =>
+        match arg with
+        | some a => (mkTy env mkCls H a).map (.seq kind)
+        | none => .ok (.seq kind .any) := by
+  rw [mkTy_seq, h, r]
+
+theorem mkTy_mapping_silent (origin : String) (args : List Ty) (h : H.answer origin args.length = none)
+    (r : env.registered.findSome? (·.answer origin args.length) = none) :
+    mkTy env mkCls H (.mapping origin args) =
+      match seqKind origin with
+      | none => .error (.typeError ("No converter for abstract type '" ++ origin ++ "'"))
+      | some kind =>
+        if kind == "Counter" then
+          match args with
+          | a :: _ =>
+            match mkTy env mkCls H a, mkTy.mkInner H (.scalar "int") with
+            | .ok k, .ok v => .ok (.dict kind k v)
+            | .error e, _ => .error e
+            | _, .error e => .error e
+          | [] => (mkTy.mkInner H (.scalar "int")).map (.dict kind .any)
+        else
+          match args with
+          | [] => .ok (.dict kind .any .any)
+          | [a] => (mkTy env mkCls H a).map fun k => .dict kind k .any
+          | a :: b :: _ =>
+            match mkTy env mkCls H a, mkTy env mkCls H b with
+            | .ok k, .ok v => .ok (.dict kind k v)
+            | .error e, _ => .error e
+            | _, .error e => .error e := by
+  rw [mkTy_mapping, h, r]
+
+theorem mkTy_tupleFixed_registered (ts : List Ty) {id : String} (h : H.answer "tuple" ts.length = none)
+    (r : env.registered.findSome? (·.answer "tuple" ts.length) = some id) :
+    mkTy env mkCls H (.tupleFixed ts) = .ok (.custom id) := by
+  rw [mkTy_tupleFixed, h, r]
+
+theorem mkTy_seq_registered (origin : String) (arg : Option Ty) {id : String}
+    (h : H.answer origin (if arg.isSome then 1 else 0) = none)
+    (r : env.registered.findSome? (·.answer origin (if arg.isSome then 1 else 0)) = some id) :
+    mkTy env mkCls H (.seq origin arg) = .ok (.custom id) := by
+  rw [mkTy_seq, h, r]
+
+theorem mkTy_mapping_registered (origin : String) (args : List Ty) {id : String}
+    (h : H.answer origin args.length = none)
+    (r : env.registered.findSome? (·.answer origin args.length) = some id) :
+    mkTy env mkCls H (.mapping origin args) = .ok (.custom id) := by
+  rw [mkTy_mapping, h, r]
+
 /-- spelling: two collection origins that `_ABSTRACT_MAPPING` sends to the same concrete type build the
 same converter, provided no handler claims either spelling -/
 theorem mkTy_seq_spelling {o₁ o₂ k : String} (hk₁ : seqKind o₁ = some k) (hk₂ : seqKind o₂ = some k)
     (arg : Option Ty)
     (h₁ : H.answer o₁ (if arg.isSome then 1 else 0) = none)
-    (h₂ : H.answer o₂ (if arg.isSome then 1 else 0) = none) :
+    (h₂ : H.answer o₂ (if arg.isSome then 1 else 0) = none)
+    (r₁ : env.registered.findSome? (·.answer o₁ (if arg.isSome then 1 else 0)) = none)
+    (r₂ : env.registered.findSome? (·.answer o₂ (if arg.isSome then 1 else 0)) = none) :
     mkTy env mkCls H (.seq o₁ arg) = mkTy env mkCls H (.seq o₂ arg) := by
-  rw [mkTy_seq, mkTy_seq, h₁, h₂, hk₁, hk₂]
+  rw [mkTy_seq, mkTy_seq, h₁, h₂, r₁, r₂, hk₁, hk₂]
 
 theorem mkTy_mapping_spelling {o₁ o₂ k : String} (hk₁ : seqKind o₁ = some k) (hk₂ : seqKind o₂ = some k)
-    (args : List Ty) (h₁ : H.answer o₁ args.length = none) (h₂ : H.answer o₂ args.length = none) :
+    (args : List Ty) (h₁ : H.answer o₁ args.length = none) (h₂ : H.answer o₂ args.length = none)
+    (r₁ : env.registered.findSome? (·.answer o₁ args.length) = none)
+    (r₂ : env.registered.findSome? (·.answer o₂ args.length) = none) :
     mkTy env mkCls H (.mapping o₁ args) = mkTy env mkCls H (.mapping o₂ args) := by
-  rw [mkTy_mapping, mkTy_mapping, h₁, h₂, hk₁, hk₂]
+  rw [mkTy_mapping, mkTy_mapping, h₁, h₂, r₁, r₂, hk₁, hk₂]
 
 /-! ## Building succeeds on the documented fragment -/
 
@@ -142,19 +227,30 @@ theorem build_total (hH : NoHandlers H)
     | none => rw [hf] at hn; cases hn
     | some p => exact ⟨p.2, rfl⟩
   | seqBare o ho =>
-    rw [mkTy_seq, hH]
+    rcases hr : env.registered.findSome? (·.answer o (if (none : Option Ty).isSome then 1 else 0)) with _ | id
+    case some => exact ⟨_, mkTy_seq_registered o none (hH _ _) hr⟩
+    rw [mkTy_seq_silent o none (hH _ _) hr]
     cases hk : seqKind o with
     | none => rw [hk] at ho; cases ho
     | some k => exact ⟨_, rfl⟩
   | seq o a ho _ ih =>
     obtain ⟨c, hc⟩ := ih
-    rw [mkTy_seq, hH]
+    rcases hr : env.registered.findSome? (·.answer o (if (some a).isSome then 1 else 0)) with _ | id
+    case some => exact ⟨_, mkTy_seq_registered o (some a) (hH _ _) hr⟩
+    rw [mkTy_seq_silent o (some a) (hH _ _) hr]
     cases hk : seqKind o with
     | none => rw [hk] at ho; cases ho
     | some k => exact ⟨.seq k c, by simp only [hc]; rfl⟩
+  | valueOrListBare => rw [mkTy_valueOrList, hH]; exact ⟨_, rfl⟩
+  | valueOrList a _ ih =>
+    obtain ⟨c, hc⟩ := ih
+    rw [mkTy_valueOrList, hH]
+    exact ⟨.vol c, by simp only [hc]; rfl⟩
   | tupleFixed ts _ ih =>
     obtain ⟨cs, hcs⟩ := exAll_mkTys_ok ih
-    exact ⟨.tuple cs, by rw [mkTy_tupleFixed, hH, hcs]; rfl⟩
+    rcases hr : env.registered.findSome? (·.answer "tuple" ts.length) with _ | id
+    case some => exact ⟨_, mkTy_tupleFixed_registered ts (hH _ _) hr⟩
+    exact ⟨.tuple cs, by rw [mkTy_tupleFixed_silent ts (hH _ _) hr, hcs]; rfl⟩
   | union ts _ ih =>
     obtain ⟨cs, hcs⟩ := exAll_mkTys_ok ih
     exact ⟨.union cs, by rw [mkTy_union, hcs]; rfl⟩
@@ -166,7 +262,9 @@ theorem build_total (hH : NoHandlers H)
     obtain ⟨cs, hcs⟩ := exAll_mkTys_ok ih
     exact ⟨.tuple cs, by rw [mkTy_tupleLit, hcs]; rfl⟩
   | mapping o args ho _ ih =>
-    rw [mkTy_mapping, hH]
+    rcases hr : env.registered.findSome? (·.answer o args.length) with _ | id
+    case some => exact ⟨_, mkTy_mapping_registered o args (hH _ _) hr⟩
+    rw [mkTy_mapping_silent o args (hH _ _) hr]
     cases hk : seqKind o with
     | none => rw [hk] at ho; cases ho
     | some k =>
@@ -211,7 +309,7 @@ theorem exAll_mkTys_ok_P {P : Conv → Prop} {ts : List Ty}
   cases this
   exact hP
 
-theorem build_fragment (hH : NoHandlers H)
+theorem build_fragment (hH : NoHandlers H) (hR : RegSilentOnContainers env)
     (hint : ((Facts.basicTable.find? (·.1 == "int")).any fun p => InFragment p.2) = true)
     {t : Ty} (hd : DocumentedCore t) : ∃ c, mkTy env mkCls H t = .ok c ∧ InFragment c = true := by
   have hintRow : ∃ ci, mkTy.mkInner H (.scalar "int") = .ok ci ∧ InFragment ci = true := by
@@ -227,19 +325,24 @@ theorem build_fragment (hH : NoHandlers H)
     | none => rw [hf] at hn; cases hn
     | some p => rw [hf] at hn; exact ⟨p.2, rfl, by simpa using hn⟩
   | seqBare o ho =>
-    rw [mkTy_seq, hH]
+    rw [mkTy_seq_silent o none (hH _ _) (hR _ _ (.inr ho))]
     cases hk : seqKind o with
     | none => rw [hk] at ho; cases ho
     | some k => exact ⟨_, rfl, rfl⟩
   | seq o a ho _ ih =>
     obtain ⟨c, hc, hF⟩ := ih
-    rw [mkTy_seq, hH]
+    rw [mkTy_seq_silent o (some a) (hH _ _) (hR _ _ (.inr ho))]
     cases hk : seqKind o with
     | none => rw [hk] at ho; cases ho
     | some k => exact ⟨.seq k c, by simp only [hc]; rfl, by simpa only [InFragment] using hF⟩
+  | valueOrListBare => rw [mkTy_valueOrList, hH]; exact ⟨_, rfl, rfl⟩
+  | valueOrList a _ ih =>
+    obtain ⟨c, hc, hF⟩ := ih
+    rw [mkTy_valueOrList, hH]
+    exact ⟨.vol c, by simp only [hc]; rfl, by simpa only [InFragment] using hF⟩
   | tupleFixed ts _ ih =>
     obtain ⟨cs, hcs, _, hP⟩ := exAll_mkTys_ok_P ih
-    exact ⟨.tuple cs, by rw [mkTy_tupleFixed, hH, hcs]; rfl, by simpa only [InFragment] using inFragmentL_iff.2 hP⟩
+    exact ⟨.tuple cs, by rw [mkTy_tupleFixed_silent ts (hH _ _) (hR _ _ (.inl rfl)), hcs]; rfl, by simpa only [InFragment] using inFragmentL_iff.2 hP⟩
   | union ts _ ih =>
     obtain ⟨cs, hcs, _, hP⟩ := exAll_mkTys_ok_P ih
     exact ⟨.union cs, by rw [mkTy_union, hcs]; rfl, by simpa only [InFragment] using inFragmentL_iff.2 hP⟩
@@ -253,7 +356,7 @@ theorem build_fragment (hH : NoHandlers H)
     obtain ⟨cs, hcs, _, hP⟩ := exAll_mkTys_ok_P ih
     exact ⟨.tuple cs, by rw [mkTy_tupleLit, hcs]; rfl, by simpa only [InFragment] using inFragmentL_iff.2 hP⟩
   | mapping o args ho _ ih =>
-    rw [mkTy_mapping, hH]
+    rw [mkTy_mapping_silent o args (hH _ _) (hR _ _ (.inr ho))]
     cases hk : seqKind o with
     | none => rw [hk] at ho; cases ho
     | some k =>
